@@ -576,10 +576,12 @@ def check(pid, tier, replay=None):
             ids = [i for (p, i) in mism if p == mism[0][0]]
             dbg = debug_shard(mism[0][0], ids, outdir)
         case_dump = None
-        if mism and impl.get("cases_file"):
+        if mism:
             try:
-                allc = json.load(open(os.path.join(outdir, impl["cases_file"])))
-                sh_idx = int(re.search(r"cases_(\d+)\.v", mism[0][0]).group(1))
+                # shard files are cases_<prefix><k>.v, their cases are in cases<prefix>.json
+                m_sh = re.search(r"cases_([A-Za-z]*)(\d+)\.v", mism[0][0])
+                allc = json.load(open(os.path.join(outdir, "cases%s.json" % m_sh.group(1))))
+                sh_idx = int(m_sh.group(2))
                 per = impl.get("shard_size", len(allc))
                 case_dump = allc[sh_idx * per + mism[0][1]]
             except Exception as e:  # noqa
